@@ -125,7 +125,18 @@ META["C15"] = dict(
     design_ref="DESIGN.md section 4 / C15", note=_DBNOTE + " The three field layouts in play (file header, rowStore.fields, memstore.fields) are tied by correspondence only.",
     technique="Coq proof (field identity bookkeeping, per-column store refinement) + alteration-history differential on the real DB")
 
+META["C19"] = dict(
+    text=("Theorems (Props/C19.v): on the guard tables translated from rpc_server.go and web/*.go on this run, every RPC handler reaching "
+          "Query/Follow/RegisterQueryHandler and every web route serving query or cached results checks credentials first; authorize "
+          "refuses any caller not presenting the configured password; authenticate serves only the static token or an unexpired session "
+          "verified in the organisation, and refuses absent, forged, expired and unverified cookies. Correspondence: the complete "
+          "request lattice against the real gRPC server and web handler."),
+    design_ref="DESIGN.md section 4 / C19",
+    note=("Modelled: the decision functions authorize/authenticate (hand model, tied by the exhaustive lattice) and the handler guard pattern "
+          "(translated). Not modelled: TLS, gRPC/HTTP framing, securecookie's cryptography, GitHub's API (stubbed)."),
+    technique="Coq proof (decision functions; finite guard tables by vm_compute lifted with forallb_forall) + exhaustive request lattice on the real servers")
+
 NOT_APPLICABLE = [
     {"property_id": p, "reason": _PENDING}
-    for p in ["C02", "C10", "C11", "C12", "C13", "C16", "C19", "C20"]
+    for p in ["C02", "C10", "C11", "C12", "C13", "C16", "C20"]
 ]
